@@ -58,7 +58,7 @@ theorem decode_body_command (f : Flags) (hc : f.command = true) (n : Nat)
       match parseCommand (buf.take n) with
       | .ok ps => .item (.command ps) ⟨.header, p⟩ (buf.drop n)
       | .err e => .fail e ⟨.header, p⟩ (buf.drop n)
-      | .panic s => .panic s := by
+      | .panic s => .panic s ⟨.body f n, p⟩ buf := by
   rw [decode.eq_1]
   simp only [DState.need]
   have : ¬ (buf.length < n) := by omega
@@ -139,5 +139,21 @@ theorem run_item {d : Dec} {buf : Bytes} {i : Item} {d' : Dec} {buf' : Bytes}
   rw [run.eq_1]
   split <;> rename_i hd <;> rw [h] at hd <;> simp at hd
   obtain ⟨rfl, rfl, rfl⟩ := hd; rfl
+
+/-- a whole stream of encoded messages decodes to exactly those messages, in order -/
+theorem run_encodeMsgs (ms : List (List Bytes)) (hne : ∀ m ∈ ms, m ≠ [])
+    (h64 : ∀ m ∈ ms, ∀ f ∈ m, f.length < 2 ^ 64) :
+    run Dec.framing (ms.map encodeMsg).flatten
+      = ⟨ms.map Item.message, none, none, Dec.framing, []⟩ := by
+  induction ms with
+  | nil => simpa [Dec.framing] using run_nil ⟨.header, []⟩ (by simp [DState.need])
+  | cons m ms ih =>
+    simp only [List.map_cons, List.flatten_cons]
+    have h := decode_encodeMsg m (hne m (by simp)) (h64 m (by simp)) [] (ms.map encodeMsg).flatten
+    simp only [List.nil_append] at h
+    rw [Dec.framing, run_item h]
+    have := ih (fun m' hm => hne m' (by simp [hm])) (fun m' hm => h64 m' (by simp [hm]))
+    rw [Dec.framing] at this
+    rw [this]
 
 end Zmq
